@@ -274,6 +274,13 @@ class SpecMixin:
         args = [self.eval(a, fr) for a in node.args[1:]]
         return self.apply_strfun(name, [a for a in args if isinstance(a, (VInt, VBool))])
 
+    def spec_aslist(self, node, fr):
+        """aslist(x): [x] for a single name, x itself for a list (the `str | Iterable[str]` parameters)"""
+        v = self.eval(node.args[0], fr)
+        if isinstance(v, VAtom):
+            return self.new_list(PyListP([v]))
+        return v
+
     def spec_ischar(self, node, fr):
         s = self.eval(node.args[0], fr)
         return VBool(s.length() == 1)
